@@ -13,8 +13,9 @@ PARTIAL = ['FOR/WHILE … LOOP … END LOOP and CASE … END CASE statements are
 
 def gen_script(ctx, g, allow=()):
     rng = ctx.rng
-    pre = [g.stmt() for _ in range(rng.randint(0, 2))]
-    post = [g.stmt() for _ in range(rng.randint(0, 2))]
+    plain = lambda: g.tx_stmt() if rng.random() < 0.3 else g.stmt()
+    pre = [plain() for _ in range(rng.randint(0, 3))]
+    post = [plain() for _ in range(rng.randint(0, 2))]
     blk = g.create_block(allow)
     stmts = pre + [blk] + post
     lay = grammar.Layout(rng, comments=rng.choice([0, 0.05]))
@@ -27,9 +28,37 @@ def check(ctx, stmts, text, what='procedural script'):
     return C05.check_script(ctx, stmts, text, what)
 
 
+BLOCK_SENSITIVE = {'BEGIN', 'END', 'CASE', 'IF', 'FOR', 'FOREACH', 'WHILE', 'LOOP', 'DECLARE', 'CREATE', 'GO', 'THEN', 'ELSE', 'ELSIF', 'ELSEIF', 'DO', 'WHEN'}
+
+
+def keyword_sweep(ctx):
+    """every block keyword of a body followed by EVERY dictionary word (a lexer rule joining a block keyword with its successor would hide it
+    from the splitter): the body stays one statement"""
+    import props.C18 as C18
+    rng = ctx.rng
+    words = [w for w in C18.all_dictionary_words() if w not in BLOCK_SENSITIVE]
+    if ctx.quick():
+        words = [w for w in words if rng.random() < 0.4] + ['EXISTS', 'NOT', 'NULL', 'EACH', 'UPDATE', 'ROW']
+    shapes = ['create procedure p() begin if %s x then y; end if; z; end; select 1',
+              'create procedure p() begin while %s x do y; end while; z; end; select 1',
+              'create function f() returns int begin if a then if %s b then c; end if; end if; return 1; end; select 1',
+              'create trigger t before insert on u for %s row begin x; y; end; select 1']
+    for sh in (shapes if not ctx.quick() else shapes[:2] + [rng.choice(shapes[2:])]):
+        for w in words:
+            text = sh % (w if rng.random() < 0.5 else w.lower())
+            ctx.evaluations += 1
+            try:
+                got = len(sqlparse.split(text))
+            except Exception as e:
+                got = 'raised ' + type(e).__name__
+            if got != 2:
+                ctx.fail('procedural body is not one statement (keyword sweep)', text, observed=got, required=2)
+
+
 def run(ctx):
     rng = ctx.rng
-    g = grammar.Gen(rng, maxdepth=2)
+    keyword_sweep(ctx)
+    g = grammar.Gen(rng, maxdepth=2, feat={'sqlfor': True})
     n = ctx.n(400, 10000)
     dom = []
     for it in range(n):
@@ -44,7 +73,8 @@ def run(ctx):
     ctx.dist.update({'grammar.' + k: v for k, v in g.hist.items()})
     if ctx.model.available:
         outs = ctx.model.ask(['quiet ' + hexs(s) for s in dom])
-        bad = [(s, o) for s, o in zip(dom, outs) if o.split()[:4] != ['ok', 'true', 'true', '0']]
+        # bodies with an expression/locking-clause FOR are outside the proved grammar (KF-C17-4)
+        bad = [(s, o) for s, o in zip(dom, outs) if o.split()[:4] != ['ok', 'true', 'true', '0'] and not for_outside_loop_header(s)]
         ctx.stream('DOMAIN(quiet)', inputs=len(dom), lines=len(dom), disagreements=len(bad))
         for s, o in bad[:5]:
             ctx.mismatch('DOMAIN(quiet)', s, o, 'block statement expected quiet with final level 0')
@@ -63,7 +93,24 @@ def replay_known(ctx, k):
     return False
 
 
+def for_outside_loop_header(text):
+    """KF-C17-4: a FOR keyword directly followed by a number or by UPDATE/SHARE (expression / locking-clause FOR), in a script with a CREATE"""
+    from sqlparse import lexer, tokens as T
+    toks = [(tt, v) for tt, v in lexer.tokenize(text) if tt not in T.Whitespace and tt not in T.Comment]
+    if not any(tt is T.Keyword.DDL and v.upper().startswith('CREATE') for tt, v in toks):
+        return False
+    for i, (tt, v) in enumerate(toks[:-1]):
+        if tt in T.Keyword and v.upper() == 'FOR':
+            nt, nv = toks[i + 1]
+            if nt in T.Number or (nt in T.Keyword and nv.upper() in ('UPDATE', 'SHARE')):
+                return True
+    return False
+
+
 def classify(f, kf):
+    for k in kf:
+        if k['id'] == 'KF-C17-4' and isinstance(f.get('input'), str) and for_outside_loop_header(f['input']):
+            return k['id']
     return None
 
 
